@@ -936,7 +936,7 @@ def _short(f):
 
 # ------------------------------------------------------------------------------ runner interface
 def plan(tier, seed, scale=1.0):
-    per = int({"quick": 20, "thorough": 400}[tier] * scale)
+    per = int({"quick": 20, "thorough": 110}[tier] * scale)
     return [{"seed": seed * 1000 + w, "n": per, "tier": tier} for w in range(16)]
 
 
@@ -945,13 +945,13 @@ def work(task):
     warnings.simplefilter("ignore")   # converted docstrings may contain `\d`: a SyntaxWarning of ast.parse, not a finding
     known = load_known(ID)
     quick = task["tier"] == "quick"
-    strat = plans(n_seeded_lines=6 if quick else 40)
+    strat = plans(n_seeded_lines=6 if quick else 24)
     counter = [0]
 
     def sim(p):
         counter[0] += 1
         per_line = (not quick) and counter[0] % 40 == 0 and not hyp.SHRINKING[0]
-        return simulate(p, tier_lines=6 if quick else 40, per_line=per_line)
+        return simulate(p, tier_lines=6 if quick else 24, per_line=per_line)
     return explore(strat, sim, task["seed"], task["n"], known, batch=10 if quick else 50,
                    max_shrink_runs=500, max_shrink_s=60.0)
 
